@@ -25,6 +25,7 @@ import (
 	"github.com/dfklegend/cell2/node/app"
 	"github.com/dfklegend/cell2/node/client/impls"
 	"github.com/dfklegend/cell2/node/client/impls/pomelo"
+	cs "github.com/dfklegend/cell2/node/client/session"
 	actormodule "github.com/dfklegend/cell2/node/modules/actor"
 	"github.com/dfklegend/cell2/node/route"
 	"github.com/dfklegend/cell2/node/service"
@@ -125,6 +126,12 @@ type Node struct {
 
 	sessMu sync.Mutex
 	bsTab  map[int64]*backHandle
+	// what the close handlers saw (FrontSession.ToJson) when a connection was removed, by id:
+	// the ClientSessions-wide handler (SetOnCloseHandler) and the per-connection one
+	// (AddOnSessionClose, registered by the front-local session handlers)
+	closeView    map[uint32]string
+	closeView2   map[uint32]string
+	closeWatched map[uint32]bool
 }
 
 var (
@@ -183,7 +190,7 @@ func boot(scratch string) (*Node, error) {
 	}
 	nodePort, cliPort := ports[0], ports[1]
 	n := &Node{Addr: fmt.Sprintf("127.0.0.1:%d", cliPort), svcs: map[string]*Svc{}, clock: clockStart,
-		nextSent: SentinelLo, bsTab: map[int64]*backHandle{}}
+		nextSent: SentinelLo, bsTab: map[int64]*backHandle{}, closeView: map[uint32]string{}, closeView2: map[uint32]string{}, closeWatched: map[uint32]bool{}}
 	cluster := "---\nEnable: false\nNodeCtrl: false\nName: e2e\nETCDServer: 127.0.0.1:1\nToken: x\n"
 	nodes := fmt.Sprintf(`---
 nodes:
@@ -285,6 +292,18 @@ services:
 	}
 	// the probe connection above created (and closed) a session; let it settle
 	if err := n.Settle(); err != nil {
+		return nil, err
+	}
+	if err := n.Front().Exec(func() {
+		f := n.Front()
+		if sc, _ := f.GetComponent("sessions").(*impls.SessionsComponent); sc != nil {
+			sc.GetSessions().SetOnCloseHandler(func(_ *service.NodeService, fs *cs.FrontSession) {
+				n.sessMu.Lock()
+				n.closeView[fs.GetNetId()] = fs.ToJson()
+				n.sessMu.Unlock()
+			})
+		}
+	}); err != nil {
 		return nil, err
 	}
 	// make sure the listener behind Addr really is gate-1's acceptor (the port could have been
@@ -471,9 +490,52 @@ func (n *Node) HasSession(id uint32) (bool, error) {
 	has := false
 	err := f.Exec(func() {
 		sc, _ := f.GetComponent("sessions").(*impls.SessionsComponent)
-		has = sc != nil && sc.GetSessions().GetSession(id) != nil
+		if sc == nil {
+			return
+		}
+		// GetSession and VisitSession must agree
+		viaVisit := false
+		sc.GetSessions().VisitSession(func(fs *cs.FrontSession) {
+			if fs.GetNetId() == id {
+				viaVisit = true
+			}
+		})
+		has = sc.GetSessions().GetSession(id) != nil
+		if has != viaVisit {
+			panic("e2e: GetSession and VisitSession disagree")
+		}
 	})
 	return has, err
+}
+
+// CloseView returns what the OnClose handlers saw when connection id was removed (ok = false:
+// not removed, or the two handlers saw different things).
+func (n *Node) CloseView(id uint32) (view string, ok bool) {
+	n.sessMu.Lock()
+	defer n.sessMu.Unlock()
+	v, ok := n.closeView[id]
+	if v2, has := n.closeView2[id]; has && v2 != v {
+		return "", false
+	}
+	return v, ok
+}
+
+// WaitRemoved waits until the front no longer holds a session with this id.
+func (n *Node) WaitRemoved(id uint32) error {
+	deadline := time.Now().Add(waitTimeout)
+	for {
+		has, err := n.HasSession(id)
+		if err != nil {
+			return err
+		}
+		if !has {
+			return n.Settle()
+		}
+		if time.Now().After(deadline) {
+			return fmt.Errorf("e2e: session %d never removed", id)
+		}
+		time.Sleep(200 * time.Microsecond)
+	}
 }
 
 // CloseAndWait closes the client's socket and waits until the front removed its session.
